@@ -357,7 +357,7 @@ def run(rep: vlib.Reporter, tier: str, seed: int) -> None:
                     "frameworks per root, equal or different key names) and a consumer, 15% single-framework DAGs (strict "
                     "fragment), 45% merge-free multi-framework DAGs. Each prepared 3x in-process and under several hash seeds; "
                     "accepted plans checked by wf_plan_auto and run in SYNC and THREADING under a watchdog. non-trivial = accepted. "
-                    "Polymorphic-link family: 11 witness requests + PRNG class forests (2-3 hierarchies, base + 1-2 subclass levels, "
+                    "Polymorphic-link family: 13 witness requests + PRNG class forests (2-3 hierarchies, base + 1-2 subclass levels, "
                     "one or two frameworks), link sets with 0-3 polymorphic links tying at the minimal distance for one concrete pair "
                     "(balanced and asymmetric, different join types / indexes), optional exact, less specific, reversed and third-source "
                     "links; 2 preparations in-process + 2 per hash seed (6 quick / 10 thorough); non-trivial = accepted with a join step")
